@@ -43,7 +43,7 @@ VerdictCal(o) ==
          IF bad = {} THEN "" ELSE LET i == Min(bad) IN Judge(k, o.qs[i], o.edge = 1) \o ":" \o ToString(i)
 
 \* ---- histories ---------------------------------------------------------------------------------
-TKeys == {"a", "b", "cf"}
+TKeys == {"a", "b", "c"}
 PIn(p) == [hol |-> IF p.hol = <<>> THEN <<>> ELSE <<ToSet(p.hol[1])>>, wk |-> IF p.wk = <<>> THEN <<>> ELSE <<ToSet(p.wk[1])>>,
            lo |-> p.lo, hi |-> p.hi]
 Lists(out, H) == out.kind = "val" /\ out.v = SetToSortSeq(H, <)
@@ -66,7 +66,8 @@ Walk(evs, i, heap, reg) ==
     IN
     CASE e.op = "reg" ->
            LET P == PIn(e.p)  cf == RegisteredCfg(P) IN
-           IF e.k \notin TKeys \/ ~AnyGiven(P) \/ ~WellCfg(cf) THEN At2(i, "bad_history")
+           IF e.k \notin TKeys THEN At2(i, "bad_history_key") ELSE IF ~AnyGiven(P) THEN At2(i, "bad_history_nothing_given")
+           ELSE IF ~WellCfg(cf) THEN At2(i, "bad_history_config")
            ELSE IF ~Lists(e.out, cf.hol) THEN At2(i, "registry_reflects_holidays") ELSE takes(e.k, cf)
       [] e.op = "con" ->
            LET P == PIn(e.p)  cf == [RegisteredCfg(P) EXCEPT !.adj = e.adj] IN
